@@ -53,6 +53,9 @@ def locked_drive(ctx, lines):
     """
     import fcntl, os
     from harness import framework as F, extract
+    if F._RUN_LOCK_HELD[0]:
+        # the framework now holds the project lock for the whole check run: nothing can have been swapped
+        return ctx.drive(DRIVER, lines)
     lock = open(os.path.join(F.LEAN, '.verif.lock'), 'w')
     fcntl.flock(lock, fcntl.LOCK_EX)
     try:
